@@ -69,6 +69,7 @@ import GM.Proof.QuoteSimTop
 import GM.Proof.QuoteSimHypB
 import GM.Proof.QuoteSimListClose
 import GM.Proof.QuoteSimLists
+import GM.Proof.QuoteSimFE6
 import GM.Props.Blocks
 
 namespace GM.Props.C08
@@ -448,6 +449,21 @@ theorem quote_prefix_run_lists_blank {src : Bytes} (hc : C08ClassG src) :
   obtain ⟨sA, hA⟩ := GM.Props.Blocks.no_panic src
   obtain ⟨sB, hB, hn, hu, _, hfe⟩ := run_sim_listsG hc hA
   exact ⟨sA, sB, hA, hB, hn, wellShapedL_of hu (segsNE_of_rel hA hn), hfe rfl⟩
+
+/-- **`setextHeadingParser.Close` and the flags** (the step that keeps `quote_prefix_simulation_lists_blank` from covering
+    setext underlines): from stores with `FE` (equal `HasBlankPreviousLines` on every child but the first of every node
+    but the Document), `Close` of the heading `node` in the original run and of `node + 1` in the prefixed run — which
+    COPIES the flag of the temporary paragraph `t` to the heading and removes the paragraph, or, when the paragraph has
+    no lines left, inserts a new paragraph and removes the heading — ends in stores with `FE` again, PROVIDED the heading
+    is the paragraph's next sibling and occurs nowhere else (`ADJ`): the heading then stands where the paragraph stood.
+    `ADJ` on the reachable states of the original run is the one fact missing for the full statement. -/
+theorem quote_setext_close_keeps_flags {sA sA' sB sB' : St} {node t : Nat} {uA uB : Unit} (hfe : FE sA.nodes sB.nodes)
+    (hlen : sB.nodes.length = sA.nodes.length + 1) (htA : sA.pc.tmpPara = some t)
+    (htB : sB.pc.tmpPara = some (t + 1)) (hne : node ≠ t) (hnode : node < sA.nodes.length)
+    (hlines : ((sB.nodes.getD (t + 1) default).lines.length == 0) = ((sA.nodes.getD t default).lines.length == 0))
+    (hadj : ADJ sA.nodes t node) (eA : bpClose .setext node sA = .ok (uA, sA'))
+    (eB : bpClose .setext (node + 1) sB = .ok (uB, sB')) : FE sA'.nodes sB'.nodes :=
+  fe_bpClose_setext hfe hlen htA htB hne hnode hlines hadj eA eB
 
 /-- **The blank-line flags in whole runs** (the first of the three pieces, as a statement about ANY covered parser
     set): for a source without a blank line, related final stores have equal `HasBlankPreviousLines` flags on every
